@@ -46,6 +46,8 @@ class Engine:
         self._summ = {}
         self._retlin = {}
         self._in_progress = set()
+        self._assume = {}
+        self._sccs = None
 
     # ------------------------------------------------------------------ basics
     def an(self, fn):
@@ -424,19 +426,102 @@ def _proj_path(v, path):
 
 def _summary(self, cf):
     """postconditions of an in-crate function, over placeholders:
-         always: hold at every normal return;  ok: hold at every return constructing Ok/Some"""
+         always: hold at every normal return;  ok: hold at every return constructing Ok/Some.
+    Functions on a recursive cycle are solved together as a greatest fixpoint (partial
+    correctness: a postcondition may be assumed for the recursive calls while it is proved)."""
     s = self._summ.get(cf.path)
     if s is not None:
         return s
+    if cf.path in self._assume:
+        return self._assume[cf.path]
     if cf.path in self._in_progress:
         return {}
-    self._in_progress.add(cf.path)
+    comp = self.scc_of(cf.path)
+    if comp is None:
+        self._in_progress.add(cf.path)
+        try:
+            s = self._compute_summary(cf)
+        finally:
+            self._in_progress.discard(cf.path)
+        self._summ[cf.path] = s
+        return s
+    members = [self.F.fns[p] for p in sorted(comp)]
+    for g in members:
+        self._in_progress.add(g.path)
     try:
-        s = self._compute_summary(cf)
+        # start from "every candidate holds"
+        for g in members:
+            self._assume[g.path] = {}
+        start = {}
+        for g in members:
+            start[g.path] = self._compute_summary(g, verify=False)
+        self._assume.update(start)
+        for _ in range(8):
+            self.drop_fact_caches(comp)
+            new = {}
+            for g in members:
+                new[g.path] = self._compute_summary(g)
+            if all(set(new[p].get("ok", [])) == set(self._assume[p].get("ok", [])) and
+                   set(new[p].get("always", [])) == set(self._assume[p].get("always", [])) for p in new):
+                break
+            self._assume.update(new)
+        else:
+            new = {p: {} for p in new}
     finally:
-        self._in_progress.discard(cf.path)
-    self._summ[cf.path] = s
-    return s
+        for g in members:
+            self._in_progress.discard(g.path)
+            self._assume.pop(g.path, None)
+    self.drop_fact_caches(comp)
+    for p_, v_ in new.items():
+        self._summ[p_] = v_
+    return self._summ[cf.path]
+
+
+def _scc_of(self, path):
+    """the recursive cycle (set of paths) a function belongs to, or None"""
+    if self._sccs is None:
+        from .callgraph import CallGraph
+        G = CallGraph(self.F)
+        import sys
+        sys.setrecursionlimit(20000)
+        index, low, on, stack, out = {}, {}, set(), [], {}
+        counter = [0]
+
+        def strong(v):
+            index[v] = low[v] = counter[0]
+            counter[0] += 1
+            stack.append(v)
+            on.add(v)
+            for w in G.out.get(v, ()):
+                if w not in self.F.fns:
+                    continue
+                if w not in index:
+                    strong(w)
+                    low[v] = min(low[v], low[w])
+                elif w in on:
+                    low[v] = min(low[v], index[w])
+            if low[v] == index[v]:
+                comp = set()
+                while True:
+                    w = stack.pop()
+                    on.discard(w)
+                    comp.add(w)
+                    if w == v:
+                        break
+                if len(comp) > 1 or v in G.out.get(v, ()):
+                    for w in comp:
+                        out[w] = comp
+        for v in sorted(self.F.fns):
+            if v not in index:
+                strong(v)
+        self._sccs = out
+    return self._sccs.get(path)
+
+
+def _drop_fact_caches(self, comp):
+    if hasattr(self, "_facts_cache"):
+        for k in [k for k in self._facts_cache if k[0] in comp]:
+            del self._facts_cache[k]
 
 
 def _ret_payload(v):
@@ -456,7 +541,7 @@ def _ret_payload(v):
     return "unknown", v
 
 
-def _compute_summary(self, cf):
+def _compute_summary(self, cf, verify=True):
     an = self.an(cf)
     P = self.prover(cf)
     cfg = an.cfg
@@ -500,7 +585,7 @@ def _compute_summary(self, cf):
         if (node, v) in seen_pts:
             continue
         seen_pts.add((node, v))
-        ph = first_join_phi(v) if depth < 6 else None
+        ph = first_join_phi(v) if depth < 60 else None
         if ph is not None and cfg.dominates(ph[1], node if node < cfg.nnodes else ph[1]):
             expanded = False
             for e in cfg.in_edges[ph[1]]:
@@ -551,7 +636,7 @@ def _compute_summary(self, cf):
         tk = an.vtype.get(v)
         if tk is not None and tk["k"] == "uint" and tk_bits(tk) == 64:
             out_.add(path)
-        elif tk is None and v[0] in ("bin", "phi", "const"):
+        elif tk is None and v[0] in ("bin", "phi", "const", "clob", "len"):
             out_.add(path)
 
     comps = set()
@@ -635,7 +720,7 @@ def _compute_summary(self, cf):
         if l in seen:
             continue
         seen.add(l)
-        if holds_everywhere(l, okpts):
+        if not verify or holds_everywhere(l, okpts):
             ok_facts.append(l)
     always = []
     if not wraps:
@@ -645,7 +730,7 @@ def _compute_summary(self, cf):
         for l in ok_facts:
             if any(a[0] == "RV" for a in lin_atoms(l)):
                 continue
-            if holds_everywhere(l, groups["err"]):
+            if not verify or holds_everywhere(l, groups["err"]):
                 always.append(l)
     return {"ok": ok_facts, "always": always}
 
@@ -713,6 +798,14 @@ def _prove_inductive(self, fn, goal, node, facts, depth=0, hyps=()):
             mapping = {p: an.read(st, p[2]) for p in mine}
             g2 = lin_subst(goal, mapping, P)
             fe = self.facts(fn, e.node) + list(hyps)
+            # facts established after the join about the phi hold for the incoming value too
+            for f in facts:
+                if f[0] == "le" and (lin_atoms(f[1]) & mine):
+                    fe.append(("le", lin_subst(f[1], mapping, P)))
+                elif f[0] in ("nec", "eqc") and f[1] in mine:
+                    fe.append((f[0], mapping[f[1]], f[2]))
+            if P.infeasible(fe):
+                continue        # this incoming edge cannot reach the site
             if P.prove_le0(g2, fe):
                 continue
             if self.prove_inductive(fn, g2, e.node, fe, depth + 1, hyps):
@@ -771,6 +864,8 @@ def _prove_inductive(self, fn, goal, node, facts, depth=0, hyps=()):
 Engine.facts = _facts
 Engine._instantiate = _instantiate
 Engine.summary = _summary
+Engine.scc_of = _scc_of
+Engine.drop_fact_caches = _drop_fact_caches
 Engine._compute_summary = _compute_summary
 Engine.prove_inductive = _prove_inductive
 
@@ -954,8 +1049,9 @@ def _atom_class(self, fn, a, seen=None):
                 path = path[2:] if len(path) >= 2 else path
             summ = self.summary(self.F.fns[x[1]])
             for l in summ.get("ok", []):
-                for at in lin_atoms(l):
-                    if at[0] == "RV" and tuple(at[1]) == tuple(path):
+                for at, k in l[1]:
+                    # an upper bound on that component (positive coefficient in  lin <= 0)
+                    if at[0] == "RV" and tuple(at[1]) == tuple(path) and k > 0 and len(l[1]) > 1:
                         return "callret"
             return "data"
         return "data"
@@ -1016,12 +1112,33 @@ def _open_goals(self, fn, ob):
     facts = self.facts(fn, ob.block)
     out = []
     for g, text in ob.goals:
-        if P.prove_le0(g, facts):
-            continue
-        if self.prove_inductive(fn, g, ob.block, facts):
+        if self.prove(fn, g, ob.block, facts):
             continue
         out.append((g, text))
     return out
+
+
+def _prove(self, fn, g, node, facts):
+    P = self.prover(fn)
+    if P.prove_le0(g, facts):
+        return True
+    if self.prove_inductive(fn, g, node, facts):
+        return True
+    # eliminate a non-phi atom with one fact, then try the loop-invariant argument on what is left
+    gat = lin_atoms(g)
+    for f in facts:
+        if f[0] != "le":
+            continue
+        fa = lin_atoms(f[1])
+        if not (fa & gat):
+            continue
+        g2 = lin_norm(lin_add(g, f[1], -1))
+        a2 = lin_atoms(g2)
+        if len([a for a in a2 if a[0] != "phi"]) < len([a for a in gat if a[0] != "phi"]) and \
+                any(a[0] == "phi" for a in a2):
+            if self.prove_inductive(fn, g2, node, facts):
+                return True
+    return False
 
 
 def _classify_open(self, fn, ob, open_goals):
@@ -1147,6 +1264,7 @@ Engine.site_unconditional = _site_unconditional
 Engine.raw_elem_of_param = _raw_elem_of_param
 Engine.decide = _decide
 Engine.open_goals = _open_goals
+Engine.prove = _prove
 Engine.classify_open = _classify_open
 Engine.decide_guard = _decide_guard
 
